@@ -326,3 +326,4 @@ package abft
 //@   loop 2 invariant 0 <= _k && _k <= len(_range) && len(stack) == atentry(len(stack)) + _k
 //@   loop 2 invariant forall(j, 0, atentry(len(stack)), stack[j] == atentry(stack)[j])
 //@   loop 2 invariant forall(i, 0, _k, stack[atentry(len(stack)) + i] == _range[i])
+//@   loop 2 hint assert _k > 0 ==> stack[len(stack) - 1] == _range[_k - 1]
